@@ -158,6 +158,10 @@ def run_poll(world, rows, profile, client=None, role="primary", shared_args=None
             rec.extra["feed_frame_reused_in_place"] = True
         else:
             shared_args["feed"] = cur
+    if p.get("feed_as_lists"):
+        # the documented other form of the feed argument: a list of lists whose first element names the columns
+        cur = [list(cur.columns)] + [list(r) for r in cur.itertuples(index=False, name=None)]
+        rec.extra["feed_passed_as_lists"] = True
     bucket = seams.STORAGE.bucket
     put0 = len(bucket.put_log)
     fit0 = len(seams.SOLVER.calls)
